@@ -32,6 +32,8 @@ pub enum Case {
     HostBased { which: String },
     /// a speedtest that runs longer than the session's idle timer (virtual clock)
     LongTest { h2: bool, upload: bool },
+    /// the configured origin is a private, non-loopback address (reached through the interposer)
+    RproxyPrivateOrigin { allow_private: bool, v6: bool },
     /// a reverse-proxy host session whose client takes the response a few bytes at a time
     RproxySlowClient { h2: bool, body: usize },
 }
@@ -334,7 +336,72 @@ async fn run_case(c: &Case) -> Result<Obs, String> {
         Case::HostBased { which } => host_based(which).await,
         Case::LongTest { h2, upload } => long_test(*h2, *upload).await,
         Case::RproxySlowClient { h2, body } => rproxy_slow_client(*h2, *body).await,
+        Case::RproxyPrivateOrigin { allow_private, v6 } => rproxy_private_origin(*allow_private, *v6).await,
     }
+}
+
+thread_local! {
+    static PRIVATE_ORIGIN_PORT: std::cell::Cell<u16> = const { std::cell::Cell::new(0) };
+}
+
+fn to_private_origin(a: &SocketAddr, _t: i32) -> crate::engine::sys::ConnectAnswer {
+    let private = match a.ip() {
+        std::net::IpAddr::V4(v4) => v4.octets()[0] == 10,
+        std::net::IpAddr::V6(v6) => v6.segments()[0] == 0xfd00,
+    };
+    if private {
+        crate::engine::sys::ConnectAnswer::RedirectLoopback(PRIVATE_ORIGIN_PORT.with(|p| p.get()))
+    } else {
+        crate::engine::sys::ConnectAnswer::PassThrough
+    }
+}
+
+/// The configured origin is 10.9.8.7 / fd00::7 (the interposer connects it to a loopback listener):
+/// the client egress policy does not apply to the operator's own origin.
+async fn rproxy_private_origin(allow_private: bool, v6: bool) -> Result<Obs, String> {
+    let origin = tokio::net::TcpListener::bind(if v6 { "[::1]:0" } else { "127.0.0.1:0" }).await.map_err(|e| e.to_string())?;
+    let port = origin.local_addr().unwrap().port();
+    PRIVATE_ORIGIN_PORT.with(|p| p.set(port));
+    let configured: SocketAddr = if v6 { format!("[fd00::7]:{port}") } else { format!("10.9.8.7:{port}") }.parse().unwrap();
+    let world = make_world(&Cfg { clients: users(), allow_private, reverse_proxy: Some((configured, "/app".into())), reverse_proxy_hosts: vec!["r.t".into()], ..Cfg::default() })?;
+    sys::script_connect(Some(to_private_origin));
+    sys::take_connect_log();
+    let peer: SocketAddr = "198.51.100.7:40000".parse().unwrap();
+    let mut obs = Obs::default();
+    let (io, server) = tokio::io::duplex(1 << 16);
+    let ctx = world.ctx.clone();
+    let d = door::Door { task: tokio::spawn(async move { vh::reverse_proxy_listen(&ctx, VProtocol::Http1, vh::wrap_io(server, peer), "r.t".to_string()).await }) };
+    let mut cl = H1Client::new(io);
+    let spec = ReqSpec { method: "GET".into(), target: "/app/data".into(), proxy_auth: None, headers: vec![("Host".into(), "r.t".into())] };
+    cl.send(&spec.h1_bytes()).await;
+    let mut acc = Box::pin(origin.accept());
+    if let Some(Ok((mut os, _))) = door::until(&mut acc, Duration::from_secs(2)).await {
+        let _ = os.set_linger(Some(Duration::ZERO));
+        let t0 = std::time::Instant::now();
+        while !obs.origin_request.windows(4).any(|w| w == b"\r\n\r\n") && t0.elapsed() < Duration::from_secs(2) {
+            let mut tmp = [0u8; 2048];
+            let mut r = Box::pin(os.read(&mut tmp));
+            match door::until(&mut r, Duration::from_secs(1)).await {
+                Some(Ok(n)) if n > 0 => obs.origin_request.extend_from_slice(&tmp[..n]),
+                _ => break,
+            }
+        }
+        let mut w = Box::pin(os.write_all(b"HTTP/1.1 200 OK\r\nContent-Length: 2\r\nConnection: close\r\n\r\nok"));
+        door::until(&mut w, Duration::from_secs(2)).await;
+        drop(w);
+        door::spin(50).await;
+        let mut sd = Box::pin(os.shutdown());
+        door::until(&mut sd, Duration::from_secs(1)).await;
+        drop(sd);
+        h1_until_close(&mut cl, &mut obs, false, Duration::from_secs(3)).await;
+    } else if let Some(r) = cl.response(Duration::from_secs(2)).await {
+        obs.status = Some(r.status);
+    }
+    drop(acc);
+    obs.connects = egress();
+    sys::script_connect(None);
+    d.task.abort();
+    Ok(obs)
 }
 
 /// The origin answers head and body in one write; the client of the reverse-proxy host has a tiny
@@ -699,6 +766,12 @@ fn judge(c: &Case, o: &Obs) -> Result<&'static str, Violation> {
             }
             Ok("speedtest-400")
         }
+        Case::RproxyPrivateOrigin { allow_private, v6 } => {
+            if o.status != Some(200) || o.body_head != b"ok" || o.origin_request.is_empty() {
+                return Err(mk(format!("C18:rproxy:origin-not-contacted:private-origin:allow_private={allow_private}:v6={v6}"), format!("a reverse-proxy request to the configured private origin was answered {:?}; the origin saw {} request bytes", o.status, o.origin_request.len())));
+            }
+            Ok("proxied-to-private-origin")
+        }
         Case::RproxySlowClient { h2, body } => {
             let p = if *h2 { "h2" } else { "h1" };
             if o.status != Some(200) {
@@ -795,7 +868,7 @@ fn cases(tier: Tier) -> Vec<Case> {
         for n in ["1", "2"] {
             v.push(Case::Download { h2, n: n.into(), segment: true, pacing: "slow".into() });
         }
-        for (length, bodies) in [("absent", vec![0usize]), ("0", vec![0]), ("1", vec![0, 1, 2]), ("5", vec![3, 5, 9]), ("125829120", vec![7]), ("125829121", vec![0]), ("4294967296", vec![0]), ("x", vec![0]), ("-1", vec![0]), ("1.0", vec![0])] {
+        for (length, bodies) in [("absent", vec![0usize]), ("0", vec![0]), ("1", vec![0, 1, 2]), ("5", vec![3, 5, 9]), ("125829120", vec![7]), ("125829121", vec![0]), ("4294967296", vec![0]), ("4294967297", vec![0, 1]), ("4294967301", vec![5]), ("8589934593", vec![1]), ("18446744073709551617", vec![1]), ("x", vec![0]), ("-1", vec![0]), ("1.0", vec![0])] {
             for b in bodies {
                 v.push(Case::Upload { h2, length: length.into(), body: b });
             }
@@ -825,6 +898,11 @@ fn cases(tier: Tier) -> Vec<Case> {
         }
     }
     // (reverse-proxy hosts are never served over HTTP/2: the TLS demultiplexer offers them HTTP/1.1 and HTTP/3 only)
+    for allow_private in [false, true] {
+        for v6 in [false, true] {
+            v.push(Case::RproxyPrivateOrigin { allow_private, v6 });
+        }
+    }
     for body in [1usize, 26, 300, 70_000, 600_000] {
         v.push(Case::RproxySlowClient { h2: false, body });
     }
@@ -849,6 +927,7 @@ pub fn run(tier: Tier) -> i32 {
                 Case::HostBased { which } => which.clone(),
                 Case::LongTest { upload, .. } => format!("long:{upload}"),
                 Case::RproxySlowClient { h2, .. } => format!("rp-slow:{h2}"),
+                Case::RproxyPrivateOrigin { allow_private, .. } => format!("rp-private:{allow_private}"),
             }))
         })
     });
